@@ -206,11 +206,58 @@ def r_reassign(ctx, rid="C10.reassign"):
                                                                                                              "probing" if probing else "not probing", len(calls), want))
 
 
+def r_candidates(ctx, rid="C10.candidates"):
+    ctx.rule(rid, "CBOR try_reassign_failed_single_entries: when the pair a single member picked first fails its value, every still "
+                  "unconsumed pair of the map is a candidate for it — with one claim on pair 0 whose value fails and an unclaimed pair 1 "
+                  "that the member validates, the claim must move to pair 1 (the same map encoded in the other order is accepted, so "
+                  "anything else makes the verdict depend on entry order); with two claims whose pairs must be swapped, they are swapped "
+                  "(abstract evaluation, pair validation scripted)", floor=2)
+    f = ctx.facts
+    file, ty = vt.VIS["cbor"]
+    K0, V0, K1, V1 = ("str", "k0"), ("str", "v0"), ("str", "k1"), ("str", "v1")
+
+    def claim(idx, entry):
+        return ("enum", "SingleEntryClaim", {"entry_index": idx, "entry": entry, "generic_context": ("None",)})
+    E0, ECUR = ("enum", "ValueMemberKeyEntry", {"id": "E0"}), ("enum", "ValueMemberKeyEntry", {"id": "CUR"})
+    scenarios = {
+        # name: (claims, current position, compat(entry id, value) -> bool, expected result, expected entry_index of each claim)
+        "one claim on pair 0, pair 1 unclaimed and acceptable": ([claim(0, ("None",))], 0, lambda e, v: v == V1, True, [1]),
+        "two claims that must be swapped": ([claim(0, ("Some", E0)), claim(1, ("None",))], 1,
+                                            lambda e, v: (e == "E0" and v == V1) or (e == "CUR" and v == V0), True, [1, 0]),
+        "two claims, no assignment exists": ([claim(0, ("Some", E0)), claim(1, ("None",))], 1, lambda e, v: e == "E0" and v == V0, False, [0, 1]),
+    }
+    for name, (claims, cur, compat, want_ok, want_idx) in scenarios.items():
+        selfo = ("enum", "Self", {"cbor": ("enum", "Value::Map", [MutList([("tuple", [K0, V0]), ("tuple", [K1, V1])])]),
+                                  "single_entry_claims": MutList(claims), "claimed_map_entries": MutList([c[2]["entry_index"] for c in claims]),
+                                  "errors": MutList()})
+
+        def spv(run, it, node, recv, compat=compat):
+            a = [it.eval(x) for x in node["a"]]
+            ent = a[0]
+            eid = ent[2]["id"] if isinstance(ent, tuple) and isinstance(ent[2], dict) else None
+            return ("Ok", bool(compat(eid, a[3])))
+        run = vt.ObjRun(f, file, ty, inline={"augment_single_entry_assignment"}, scripts={"single_pair_validates_entry": spv})
+        fi = run.fn("try_reassign_failed_single_entries")
+        try:
+            res = run.call("try_reassign_failed_single_entries", selfo, {"current_claim_position": cur, "current_entry": ECUR, "current_generic_context": ("None",)})
+        except absint.Unknown as e:
+            ctx.incomplete_msg(rid, "%s: %s" % (name, e))
+            continue
+        got_ok = res == ("Ok", True)
+        idx = [c[2]["entry_index"] for c in selfo[2]["single_entry_claims"]]
+        ctx.site(rid, name, file, fi.line, {"result": repr(res)[:30], "claims_after": idx})
+        if got_ok != want_ok or (want_ok and idx != want_idx):
+            ctx.violation(rid, name.split(",")[0], file, fi.line,
+                          "try_reassign_failed_single_entries (%s): returns %r with claims on pairs %s; an order-independent search gives %s with claims on %s"
+                          % (name, res, idx, "Ok(true)" if want_ok else "Ok(false)", want_idx))
+
+
 def run(ctx):
     ctx.guarded("C10.jsonorder", r_jsonorder)
     ctx.guarded("C10.ledger", r_ledger)
     ctx.guarded("C10.occreset", r_occreset)
     ctx.guarded("C10.reassign", r_reassign)
+    ctx.guarded("C10.candidates", r_candidates)
 
 
 def child_obj():
